@@ -302,8 +302,8 @@ def param_equivalence(cls_short):
     """C04: parameterised vs inline rendering of universe statements: placeholders in text order = values"""
     import re
     for label, obj in universe():
-        if not hasattr(obj, "get_sql"):
-            continue
+        if not hasattr(obj, "get_sql") or label == "param":
+            continue        # an explicit Parameter("?") of the user is a placeholder without a recorded value by design
         for qc in QUERY_CLASSES:
             ctx = qc.SQL_CONTEXT
             p = Parameterizer()
@@ -604,6 +604,11 @@ def _lex_literal(sql, q="'", mysql=False):
     return None
 
 
+def fn_coalesce(a, b):
+    from . import fn
+    return fn.Coalesce(a, b)
+
+
 def literal_roundtrip(cls_short, kind):
     """C05: adversarial values of a kind, in several positions, lex as one literal that decodes to the value"""
     import datetime
@@ -619,11 +624,15 @@ def literal_roundtrip(cls_short, kind):
             for label, build in (("where", lambda v: qc.from_(t).select("*").where(t.a == v)),
                                  ("insert", lambda v: qc.into(t).insert(v)),
                                  ("set", lambda v: qc.update(t).set(t.a, v)),
-                                 ("select", lambda v: qc.from_(t).select(v))):
+                                 ("function argument", lambda v: qc.from_(t).select(fn_coalesce(t.a, v)))):
                 v = s_ if kind == "str" else ({"k": s_} if kind == "dict" else ([s_] if kind == "list" else None))
                 if v is None:
                     continue
-                sql = str(build(v))
+                # dict / list values are literals only inside a constant wrapper (a bare list is an ARRAY constructor)
+                arg = v if kind == "str" else qc._builder()._wrapper_cls(v)
+                if kind != "str" and label == "insert":
+                    continue
+                sql = str(build(arg))
                 want = v if kind == "str" else json.dumps(v)
                 # locate the literal: it starts at the first quote of the value position
                 i = sql.find("'")
